@@ -88,16 +88,23 @@ def q_case(P, seq, lsan=False):
 
 
 # ---------------------------------------------------------------- optional operation alphabet
-def o_alphabet(P, vals, full):
+# value operations / copies come in three source categories (const lvalue, non-const lvalue, rvalue): different overload
+# resolution in the C++, one model function each
+VAL_OPS_ALL = ("va", "vn", "vm", "vc", "vq", "vr")
+COPY_OPS_ALL = ("as", "an", "ar", "cc", "cn", "cr")
+KIND_VALUES = {"b": ["\x00", "\x01"], "f": ["\x00", "\x01"], "i": ["0", "-17", "123456"], "a": ["", "ab"], "s": ["", "a"], "c": ["", "a"]}
+
+
+def o_alphabet(P, vals, full, cats=False):
     ops = []
     for i in range(P):
         for v in vals:
-            for k in (("va", "vm", "vc", "vr") if full else ("va", "vr")):
+            for k in (VAL_OPS_ALL if cats else ("va", "vm", "vc", "vr") if full else ("va", "vr")):
                 ops.append((k, i, hx(v)))
     for i in range(P):
         for j in range(P):
-            ops.append(("as", i, j))
-            ops.append(("cc", i, j))
+            for k in (COPY_OPS_ALL if cats else ("as", "cc")):
+                ops.append((k, i, j))
     for i in range(P):
         ops += [("ae", i), ("dc", i), ("rd", i)]
     return ops
@@ -135,15 +142,18 @@ class C18(Check):
                   "the code only by the driver: the per-type constructor/destructor counters and the 'which destructor type ran on "
                   "which object' record are the only thing that sees a wrong cast in the deleter. The correspondence is "
                   "bounded-exhaustive (all applicable sequences to depth 4 over a pool of 3 pointers + a vector, 2 types; optional "
-                  "to depth 3) + sampled (random to length 20), not proved. The const T& and T&& overloads of optional share one "
-                  "model function each and are distinguished only by the driver. Leaks: allocator bytes are compared before/after every case and LeakSanitizer confirms any growth.")
+                  "to depth 3) + sampled (random to length 20), not proved. The model has ONE function per optional operation; the C++ overload "
+                  "set (const T& / T&& / copy operations) and the source's value category (const lvalue, non-const lvalue, rvalue) and "
+                  "payload type (bool, int, constructible-from-anything, convertible-from-bool, std::string, counting type) — i.e. which "
+                  "overload is actually selected — are distinguished only by the driver. Leaks: allocator bytes are compared before/after every case and LeakSanitizer confirms any growth.")
     rule = ("quaint_ptr: every applicable operation sequence of depth 4 (thorough: also depth 5 on a pool of 2 and depth 4 with 3 types) "
             "over {make<T>, move-construct, move-assign (incl. self), reset, destroy, push_back(move), reserve, clear, move out of "
             "vector} on a pool of 3 pointers + one std::vector<quaint_ptr>, then random sequences of length 12-20 (biased to "
             "applicable operations) and fully random ones (inapplicable operations must be skipped identically); optional: every "
             "sequence of depth 3 over {assign value, construct from value, copy-assign (incl. self), copy-construct, assign empty, "
-            "default-construct, read} on 2 optionals of a counting type, random length <= 16 on 3 optionals of std::string and of "
-            "the counting type with values over arbitrary bytes. The state is observed after EVERY step. Non-trivial: a quaint "
+            "default-construct, read} on 2 optionals of a counting type, every sequence of depth 2 over the same operations with the source offered as "
+            "const lvalue / non-const lvalue / rvalue, for T = bool, int, a class constructible from anything, a class convertible "
+            "from bool, std::string and the counting type; random length <= 16 on 3 optionals of all six payload types. The state is observed after EVERY step. Non-trivial: a quaint "
             "case in which some object is destroyed before the end of the history and some pointer is moved; an optional case "
             "with a copy/assignment from another optional. distinct = distinct case line")
     modelled_note = ("modelled, not verified: std::unique_ptr (release on destruction/reset/move assignment, null after move), "
@@ -166,6 +176,17 @@ class C18(Check):
             yield o_case("c", 2, list(seq)), "o-exh3-counting"
         for seq in itertools.product(oa, repeat=2):
             yield o_case("s", 2, list(seq)), "o-exh2-string"
+        # every payload kind (bool, int, constructible-from-anything, convertible-from-bool, string, counting) x every
+        # source category, depth 2 (thorough: depth 3 on the copy paths)
+        for kind in "bifasc":
+            oc = o_alphabet(2, KIND_VALUES[kind][:2], full=True, cats=True)
+            for seq in itertools.product(oc, repeat=2):
+                yield o_case(kind, 2, list(seq)), "o-exh2-all-categories"
+        if not quick:
+            for kind in "bia":
+                oc = [o for o in o_alphabet(2, KIND_VALUES[kind][:2], full=True, cats=True) if o[0] in ("va", "an", "ar", "cn", "cr", "ae", "rd")]
+                for seq in itertools.product(oc, repeat=3):
+                    yield o_case(kind, 2, list(seq)), "o-exh3-copy-paths"
         if not quick:
             oaf = o_alphabet(2, ["", "a"], full=True)
             for seq in itertools.product(oaf, repeat=3):
@@ -198,20 +219,25 @@ class C18(Check):
         no = 3000 if quick else 40000
         for n in range(no):
             P = 3
-            kind = rng.choice("sc")
+            kind = rng.choice("scbifa")
             L = rng.randint(1, 16)
             seq = []
             for _ in range(L):
                 k = rng.random()
                 i, j = rng.randrange(P), rng.randrange(P)
                 if k < 0.3:
-                    m = rng.choice([0, 0, 1, 2, 5, 40, 300])
-                    v = "".join(chr(rng.choice([0, 1, 0x20, 0x41, 0x61, 0x7f, 0x80, 0xff, rng.randrange(256)])) for _ in range(m))
-                    seq.append((rng.choice(["va", "vm", "vc", "vr"]), i, hx(v)))
+                    if kind in "sca":
+                        m = rng.choice([0, 0, 1, 2, 5, 40, 300])
+                        v = "".join(chr(rng.choice([0, 1, 0x20, 0x41, 0x61, 0x7f, 0x80, 0xff, rng.randrange(256)])) for _ in range(m))
+                    elif kind == "i":
+                        v = str(rng.choice([0, 1, -1, 7, -2147483648, 2147483647, rng.randint(-10 ** 6, 10 ** 6)]))
+                    else:
+                        v = rng.choice(["\x00", "\x01"])
+                    seq.append((rng.choice(VAL_OPS_ALL), i, hx(v)))
                 elif k < 0.55:
-                    seq.append(("as", i, j))
+                    seq.append((rng.choice(["as", "an", "ar"]), i, j))
                 elif k < 0.7:
-                    seq.append(("cc", i, j))
+                    seq.append((rng.choice(["cc", "cn", "cr"]), i, j))
                 elif k < 0.8:
                     seq.append(("ae", i))
                 elif k < 0.85:
@@ -229,7 +255,7 @@ class C18(Check):
             moved = any(o.split(".")[0] in ("mc", "ma", "vp", "vt") for o in w[2].split(","))
             return destroyed_early and moved
         if w[0] == "o":
-            return any(o.split(".")[0] in ("as", "cc") for o in w[3].split(","))
+            return any(o.split(".")[0] in COPY_OPS_ALL for o in w[3].split(","))
         return False
 
     def signature(self, case, mobs, iobs):
